@@ -241,9 +241,11 @@ void DocumentBuilder::proc_edge_begin(const char* from, const char* to, const bo
     edgeFrameDepth = frames.size();
     if (!resolve(from, fid) || (!fid.get_type().is_location() && !fid.get_type().is_branchpoint())) {
         handle_error(TypeException{"$No_such_location_or_branchpoint_(source)"});
+        currentEdge = nullptr;                      // the labels that follow belong to no edge, not to the previous one
         push_frame(frame_t::create(frames.top()));  // dummy frame for upcoming popFrame
     } else if (!resolve(to, tid) || (!tid.get_type().is_location() && !tid.get_type().is_branchpoint())) {
         handle_error(TypeException{"$No_such_location_or_branchpoint_(destination)"});
+        currentEdge = nullptr;
         push_frame(frame_t::create(frames.top()));  // dummy frame for upcoming popFrame
     } else {
         currentEdge = &currentTemplate->add_edge(fid, tid, control, actname);
@@ -262,7 +264,14 @@ void DocumentBuilder::proc_edge_end(const char* from, const char* to)
         popFrame();
 }
 
-void DocumentBuilder::proc_select(const char* id) { addSelectSymbolToFrame(id, currentEdge->select, position); }
+void DocumentBuilder::proc_select(const char* id)
+{
+    if (!currentEdge) {
+        handle_error(TypeException("Must be declared inside of an edge"));
+        return;
+    }
+    addSelectSymbolToFrame(id, currentEdge->select, position);
+}
 
 void DocumentBuilder::proc_guard()
 {
